@@ -21,6 +21,37 @@ class vplain(dr.ComponentType):
     pass
 
 
+class DeferPool(object):
+    """a pool whose submit() defers; tasks are executed later in a PRNG-chosen order"""
+
+    def __init__(self, rng):
+        self.rng, self.tasks = rng, []
+
+    def submit(self, fn, *a):
+        fut = _Fut(self, fn, a)
+        self.tasks.append(fut)
+        return fut
+
+    def drain(self):
+        self.rng.shuffle(self.tasks)
+        for t in self.tasks:
+            t.run()
+        self.tasks = []
+
+
+class _Fut(object):
+    def __init__(self, pool, fn, a):
+        self.pool, self.fn, self.a, self.done, self.val = pool, fn, a, False, None
+
+    def run(self):
+        if not self.done:
+            self.val, self.done = self.fn(*self.a), True
+
+    def result(self):
+        self.pool.drain()
+        return self.val
+
+
 class Crash(Exception):
     def __init__(self, n):
         super(Crash, self).__init__("crash%d" % n)
@@ -87,6 +118,8 @@ def code(v):
         return 0
     if isinstance(v, int):
         return 1 + v % 991
+    if isinstance(v, tuple) and v:
+        return code(v[0])          # a tuple is ONE ordinary value (only lists fan out); it stands for its first member
     if isinstance(v, list):
         return 2 + sum(v) % 991
     if isinstance(v, plugins._make_skip):
@@ -133,6 +166,9 @@ class World(object):
             self.comps[i] = self._make(i, s, tag)
         for i, c in enumerate(self.comps):
             self.ids[c] = i
+        if spec and spec[0].get("reset_enabled"):
+            import insights
+            insights.apply_default_enabled({"default_component_enabled": True})
         for i, s in enumerate(spec):
             if not s.get("enabled", True):
                 dr.set_enabled(self.comps[i], False)
@@ -154,13 +190,16 @@ class World(object):
             p = body.split(":")
             if p[0] == "f":
                 raise_exc(p[1], cid)
+            def shaped(val):
+                # the same ordinary value as a tuple of 1..3 members (a sequence that is NOT a list)
+                return (val,) + (0,) * (s["tuple"] - 1) if s.get("tuple") else val
             if p[0] == "i":
                 k = int(p[1])
                 if k >= len(args) or args[k] is None:
                     raise_exc(p[2], cid)
-                return mix(cid, args)
+                return shaped(mix(cid, args))
             if p[0] == "v":
-                return mix(cid, args)
+                return shaped(mix(cid, args))
             if p[0] == "n":
                 return None
             if p[0] == "r":
@@ -219,6 +258,24 @@ class World(object):
             # register as an implementation of the registry point through the real metaclass
             type("I%d_%s" % (cid, tag), (self.specset,), {"p%d" % s["impl_of"]: comp})
         return comp
+
+    # -- the declared edges as the registry holds them (three places that must stay as they are through any evaluation)
+    def edge_snapshot(self):
+        out = {}
+        for cid, c in enumerate(self.comps):
+            grp = dr.COMPONENTS[dr.get_group(c)]
+            out[cid] = (sorted(self.ids.get(d, -1) for d in dr.get_dependencies(c)),
+                        sorted(self.ids.get(d, -1) for d in dr.get_delegate(c).dependencies),
+                        sorted(self.ids.get(d, -1) for d in grp.get(c, ())))
+        return out
+
+    def edges_changed(self, before):
+        after = self.edge_snapshot()
+        if after == before:
+            return None
+        diff = sorted(k for k in before if before[k] != after.get(k))
+        return "the evaluation changed the declared edges of %s: %s -> %s (every later evaluation in the process sorts on them)" % (
+            diff, [before[k] for k in diff], [after.get(k) for k in diff])
 
     # -- late registration: an EXISTING datasource becomes one more implementation of a registry point
     def late_candidates(self, keys):
@@ -341,6 +398,8 @@ def canon_val(world, v):
         return "R%d" % v["n"]
     if isinstance(v, int):
         return "A%d" % v
+    if isinstance(v, tuple) and v and isinstance(v[0], int):
+        return "A%d" % v[0]        # see code(): one ordinary value
     return "?%r" % (v,)
 
 
@@ -470,11 +529,17 @@ def gen_spec(rng, n, fault_rate=0.25, with_points=True, with_ignore=False, seede
             s["body"] = rng.choice(["r", "r", "r", "n", "v"])
         else:
             s["body"] = rng.choice(["v", "v", "v", "v", "n"])
+        if kind in ("datasource", "plain", "plugin") and not s.get("multi") and s["body"][0] in "vi" and rng.random() < 0.15:
+            s["tuple"] = rng.choice([1, 2, 3])
         spec.append(s)
     if with_ignore:
         for cid in range(n):
             if seeded and rng.random() < 0.15:
                 spec[cid]["ignore"] = [rng.choice(list(seeded))]
+    if spec and rng.random() < 0.15:
+        # the enabled registry is replaced (insights.apply_default_enabled, what `insights run -c`, collect and the shell
+        # do first) BEFORE this world's components are disabled
+        spec[0]["reset_enabled"] = True
     return spec
 
 
@@ -529,6 +594,7 @@ def evaluate(world, seeds, store_skips, graph, order=None, mode="components", ob
     g = dict((k, set(v)) for k, v in graph.items())
     r = Run()
     r.error = None
+    edges = world.edge_snapshot()
     try:
         if mode == "run":
             order = dr.run_order(dict((k, set(v)) for k, v in g.items()))
@@ -539,6 +605,7 @@ def evaluate(world, seeds, store_skips, graph, order=None, mode="components", ob
             dr.run_components(order, g, b)
     except Exception as ex:   # C03: nothing may escape
         r.error = ex
+    r.edges_changed = world.edges_changed(edges)
     r.broker, r.graph, r.order = b, g, order
     r.order_ids = [world.ids[c] for c in order if c in world.ids]
     r.calls = list(world.calls)
@@ -577,7 +644,7 @@ def unstrip(spec):
     return out
 
 
-def loaded_archive_history(world, graph, pre, store_skips, shared):
+def loaded_archive_history(world, graph, pre, store_skips, shared, via="run"):
     """
     One evaluation of a LOADED archive: SerializedArchiveContext in the broker, the components of `pre` already present,
     the graph handed over the way insights._run / get_subgraphs do it (its values are the registry's own edge sets).
@@ -603,7 +670,12 @@ def loaded_archive_history(world, graph, pre, store_skips, shared):
         g1 = dict((c, dr.get_delegate(c).dependencies) for c in keys)
     err = None
     try:
-        dr.run(g1, broker=hb)
+        if via == "run_all":
+            dr.run_all(g1, hb)
+        elif via == "run_incremental":
+            list(dr.run_incremental(g1, hb))
+        else:
+            dr.run(g1, broker=hb)
     except Exception as ex:
         err = ex
     return err, before, edges()
@@ -628,7 +700,8 @@ def rebuild(case):
     if case.get("mode") == "loaded-archive-history":
         # the recorded history: first the evaluation of a loaded archive, then the recorded evaluation on the graph as
         # the registry gives it afterwards
-        world.history = loaded_archive_history(world, graph, case["pre"], case.get("store_skips", False), case["shared"])
+        world.history = loaded_archive_history(world, graph, case["pre"], case.get("store_skips", False), case["shared"],
+                                               case.get("via", "run"))
         case["_replaying"] = True
         graph = world.graph_for(case["targets"])
         if case.get("dropped") is not None and not case.get("_keep_dropped"):
